@@ -23,7 +23,7 @@ using namespace Qentem;
 #ifdef QENTEM_VERIF
 namespace vfp {
 static bool g_on   = false;
-static long g_case = 0, g_step = 0;
+static long g_case = 0, g_step = 0, g_len = 0;
 using Qentem::Tags::TagBit;
 using Qentem::Tags::TagType;
 
@@ -82,8 +82,73 @@ struct Dump {
         out += "]";
     }
 };
+// the finished tag tree with the text ranges the renderer will trust: every record [a, b) and, per container it owns, the
+// range [lo, hi) in which that container's records must lie (spec/QTagTree.tla)
+static long g_final_records = 0, g_final_depth = 0, g_final_maxdepth = 0;
+static void final_cont(std::string &o, const Array<TagBit> &c) {
+    if (++g_final_depth > g_final_maxdepth) g_final_maxdepth = g_final_depth;
+    struct Leave { ~Leave() { --g_final_depth; } } leave;
+    o += "[";
+    int i = 0;
+    for (const TagBit *t = c.First(); t != c.End(); ++t) {
+        if (i++) o += ",";
+        ++g_final_records;
+        const char *k = "none";
+        long        a = 0, b = 0;
+        std::string subs;
+        auto sub = [&](long lo, long hi, const Array<TagBit> &sc) {
+            subs += (subs.empty() ? "" : ",");
+            subs += "{\"lo\":" + std::to_string(lo) + ",\"hi\":" + std::to_string(hi) + ",\"t\":";
+            final_cont(subs, sc);
+            subs += "}";
+        };
+        switch (t->GetType()) {
+            case TagType::Variable:
+            case TagType::RawVariable: {
+                const auto &v = t->GetVariableTag();
+                k = "var"; a = (long)v.Offset - 5; b = a + (long)v.Length + 6;
+                break;
+            }
+            case TagType::Math: k = "math"; a = (long)t->GetMathTag().Offset; b = (long)t->GetMathTag().EndOffset; break;
+            case TagType::SuperVariable: {
+                const auto &v = t->GetSuperVariableTag();
+                k = "svar"; a = (long)v.Offset; b = (long)v.EndOffset;
+                sub(a, b, v.SubTags);
+                break;
+            }
+            case TagType::InLineIf: {
+                const auto &v = t->GetInLineIfTag();
+                k = "iif"; a = (long)v.Offset; b = a + (long)v.Length;
+                sub(a, b, v.SubTags);
+                break;
+            }
+            case TagType::Loop: {
+                const auto &v = t->GetLoopTag();
+                k = "loop"; a = (long)v.Offset; b = (long)v.EndOffset + 7;
+                sub(a + (long)v.ContentOffset, (long)v.EndOffset, v.SubTags);
+                break;
+            }
+            case TagType::If: {
+                const auto &v = t->GetIfTag();
+                k = "if"; a = (long)v.Offset; b = (long)v.EndOffset;
+                for (const auto *cs = v.Cases.First(); cs != v.Cases.End(); ++cs) sub((long)cs->Offset, (long)cs->EndOffset, cs->SubTags);
+                break;
+            }
+            default: break;
+        }
+        o += std::string("{\"k\":\"") + k + "\",\"a\":" + std::to_string(a) + ",\"b\":" + std::to_string(b) + ",\"s\":[" + subs + "]}";
+    }
+    o += "]";
+}
 template <class Root, class Stack, class Cont, class Loop>
 static void parse_event(unsigned tok, const Root &root, const Stack &ps, const Cont *cur, const Loop *ltag, bool child) {
+    if (g_on && vf::g_trace != nullptr && tok == ~0U) {   // the finished tree (always, unless it is huge)
+        std::string o;
+        g_final_records = g_final_depth = g_final_maxdepth = 0;
+        final_cont(o, root);
+        if (g_final_records <= 400 && g_final_maxdepth <= 40)   // (the JSON reader of the oracle nests at most 255 levels)
+            fprintf(vf::g_trace, "{\"final\":1,\"c\":%ld,\"len\":%ld,\"tree\":%s}\n", g_case, g_len, o.c_str());
+    }
     if (!g_on || vf::g_trace == nullptr || g_step > 200) return;   // long cases are not validated (the dump is quadratic); the check skips them
     Dump d;
     d.want_loop = (const void *)ltag;
@@ -320,6 +385,7 @@ int main(int argc, char **argv) {
             Value<char> v8 = parse_value<char>(vj);
             bool        p8 = true;
             vfp::g_case = idx;
+            vfp::g_len  = (long)t.size();
             vfp::g_step = 0;
             vfp::g_on   = true;
             std::vector<long> o8 = render<char>(t, v8, p8);
